@@ -521,3 +521,29 @@ def r01_7(prog, out):
             out.holds(key, prog.loc(cid), "after taking deliveries out it returns them without suspending (it only waits when it holds nothing)")
     if n == 0:
         raise CheckBroken("no select! branch future removes deliveries (the expiry poll was expected)")
+
+
+@rule("C01", "R01.8", "a copy of actor state that other tasks consult is refreshed after every change of that state, before the actor suspends", floor=1)
+@rule("C06", "R01.8", "a copy of actor state that other tasks consult is refreshed after every change of that state, before the actor suspends", floor=1)
+@rule("C15", "R01.8", "a copy of actor state that other tasks consult is refreshed after every change of that state, before the actor suspends", floor=1)
+@rule("C04", "R01.8", "a copy of actor state that other tasks consult is refreshed after every change of that state, before the actor suspends", floor=1)
+def r01_8(prog, out):
+    """Consumers learn about a subscription's backlog by asking its actor.  A shortcut that answers from a published copy
+    (a backlog-size hint in an atomic, an `is_idle` flag) is only right if the copy is refreshed on every path that changes
+    the backlog -- the expiry timer's requeue included.  shadow.py finds such copies and the unrefreshed paths."""
+    import shadow
+    shs = shadow.find_shadows(prog)
+    if not shs:
+        out.holds("no-shadow-state", "", "no value derived from an actor's anchored state is published for other tasks to branch on", nontrivial=False)
+        return
+    for sh in shs:
+        key = "shadow:%s" % sh.label()
+        stale = shadow.stale_paths(prog, sh)
+        if stale:
+            b, bb, text = stale[0]
+            out.violation(key, prog.loc(b, bb), "%s is consulted at %s instead of asking the actor, but the actor changes %s here (%s) and can suspend without "
+                          "refreshing the copy: whoever trusts it acts on a state that is gone (a pull is skipped although messages are waiting, ...)"
+                          % (sh.label().split("<-")[0], sh.consulted[0], sh.field[1], text),
+                          ["copy written at %s" % sh.site] + ["unrefreshed change: %s in %s" % (t, prog.short(bx)) for bx, _, t in stale[:6]])
+        else:
+            out.holds(key, sh.site, "refreshed after every change of %s before the actor's next suspension point" % sh.field[1])
